@@ -5,6 +5,7 @@
 -/
 import Gama.Proto
 import Gama.Model.Sparse
+import Gama.Model.SparseOps
 import Gama.Model.Graph
 import Gama.Model.Connected
 import Gama.Model.RCM
@@ -100,12 +101,17 @@ def step (exactTol : Bool) (s : Sess K) (line : String) : Sess K × String :=
     | _, _, _ => (s, "bad-op")
   | ["row"] =>
     match s.A with
-    | some A => if A.canNewRow then ({ A := some A.newRow }, "ok") else ({ A := s.A }, "refused")
+    | some A =>      -- a step of the build machine (Model/SparseOps.lean)
+      match SMat.BuildOp.apply? A .newRow with
+      | some B => ({ A := some B }, "ok")
+      | none => ({ A := s.A }, "refused")
     | none => (s, "bad-op")
   | ["add", v, k] =>
     match s.A, (Wire.parse v : Option K), k.toNat? with
     | some A, some v, some k =>
-      if A.canAddElement then ({ A := some (A.addElement v k) }, "ok") else ({ A := s.A }, "refused")
+      match SMat.BuildOp.apply? A (.add v k) with
+      | some B => ({ A := some B }, "ok")
+      | none => ({ A := s.A }, "refused")
     | _, _, _ => (s, "bad-op")
   | ["dump"] =>
     match s.A with
@@ -118,7 +124,9 @@ def step (exactTol : Bool) (s : Sess K) (line : String) : Sess K × String :=
   | ["replicate3", n, r, c] =>
     match s.A, n.toNat?, r.toNat?, c.toNat? with
     | some A, some n, some r, some c =>
-      if A.canReplicate n r then ({ A := some (A.replicate n r c) }, "ok") else ({ A := s.A }, "refused")
+      match SMat.BuildOp.apply? A (.replicate n r c) with     -- the fill may continue on the replica
+      | some B => ({ A := some B }, "ok")
+      | none => ({ A := s.A }, "refused")
     | _, _, _, _ => (s, "bad-op")
   | ["transpose"] =>
     match s.A with
